@@ -375,13 +375,18 @@ func c12RunSequence(c *kit.Ctx, env *c12env, transport string, seq []c12sym, cas
 		if code == 200 && s.name == "DESCRIBE" {
 			curPath = env.srcPath
 		}
+		// side effects. Frames collected so far arrived BEFORE this response: they are legitimate only if an earlier
+		// PLAY had already succeeded (the PLAY response itself must precede the first media)
+		if !gotPlay200 && len(cl.Frames) > framesBefore {
+			if s.method == "PLAY" && code == 200 {
+				fail("media-before-play-response:" + transport)
+			} else {
+				fail("media-before-successful-play:" + s.name)
+			}
+			return
+		}
 		if s.method == "PLAY" && code == 200 {
 			gotPlay200 = true
-		}
-		// side effects
-		if !gotPlay200 && len(cl.Frames) > framesBefore {
-			fail("media-before-successful-play:" + s.name)
-			return
 		}
 		if st.phase != "recording" && prev.phase != "recording" && (media.Get(recPath) != nil || regBefore) {
 			fail("stream-published-before-successful-record:" + s.name)
@@ -510,6 +515,10 @@ func runC12(c *kit.Ctx) {
 	}
 	env.src = media.Get(env.srcPath)
 	env.baseline = kit.Snapshot()
+	// seeded delay in the goroutine that attached a consumer, right after the consumer's sender goroutine was started:
+	// a reply written after attaching is then overtaken by the parameter sets replayed to the joiner
+	pert := kit.H.Perturb([]string{"media.join.started"}, nil, c.Seed*977+int64(c.Shard), 0.5, 400*time.Microsecond)
+	defer kit.RemoveAll(pert)
 
 	full := c12Alphabet()
 	red := c12Reduced(full)
